@@ -15,13 +15,18 @@ inductive Val
   | n (x : Nat)
   | pair (i : Nat) (v : Val)          -- any_of result `(index, value)`
   | list (vs : List Val)              -- all_of result
+  | atom (kind x : Nat)               -- an opaque user value: exception instance, bool, string, float, class, ()
 deriving Inhabited
+
+/-- a numeral used as a value is the integer value `n` -/
+instance (k : Nat) : OfNat Val k := ⟨.n k⟩
 
 partial def Val.show : Val → String
   | .none => "none"
   | .n x => s!"n{x}"
   | .pair i v => s!"p({i},{v.show})"
   | .list vs => "l[" ++ ",".intercalate (vs.map Val.show) ++ "]"
+  | .atom k x => s!"a{k}.{x}"
 
 inductive Act
   | emit (tgt kind delay : Nat) (daemon : Bool) (hook : Nat)   -- hook = 0: none; h>0: completion hook h attached
@@ -29,12 +34,14 @@ inductive Act
   | emitAbs (tgt kind time : Nat) (daemon : Bool)              -- an event at an absolute timestamp
   | release (i : Nat)                       -- hand a pre-created (held) event i to the scheduler
   | cancel (kind : Nat)                     -- cancel the most recently created event of this kind
-  | resolve (f : Nat) (v : Nat)
+  | resolve (f : Nat) (v : Val)              -- `future.resolve(v)`: the value is opaque to the engine
   | anyOf (f : Nat) (gs : List Nat)         -- slot f := any_of(gs…)
   | allOf (f : Nat) (gs : List Nat)         -- slot f := all_of(gs…)
   | fresh (f : Nat)                         -- slot f := SimFuture()
   | crash (ent : Nat)                       -- entity._crashed = True
   | restore (ent : Nat)                     -- entity._crashed = False
+  | addHook (kind hook : Nat)               -- `add_completion_hook` on the most recently created event of this kind
+  | metric (ent : Nat) (abs : Bool) (v : Int) -- entity.level = v  /  entity.level = (entity.level or 0) + v
 
 
 inductive Term
@@ -78,6 +85,7 @@ structure Proc where
   done : Bool := false
   send : Val := .none        -- `_send_value` of the pending continuation
   started : Bool := false
+  ev : Nat := 0              -- creation index of the originating event (whose `on_complete` list the process shares)
 
 /-- observable log entries (what the harness entities write down) -/
 inductive Obs
@@ -100,6 +108,9 @@ structure PS where
   crashed : List Nat := []                   -- entities with `_crashed = True`
   gateCont : Bool := false                   -- variant: continuations to a crashed entity are gated too
   held : List (Nat × Spec) := []             -- events created before the run and not yet scheduled
+  late : List (Nat × Nat) := []              -- pid ↦ hook added to the originating event while the process is in flight
+  lateAtt : List Nat := []                   -- every hook ever added in flight (never shrinks)
+  level : List (Nat × Int) := []             -- entity ↦ its `level` attribute (absent = `None`)
 
 def futGet (fs : List Fut) (f : Nat) : Fut := fs.getD f ({} : Fut)
 def futSet (fs : List Fut) (f : Nat) (x : Fut) : List Fut :=
@@ -174,6 +185,23 @@ def addCb (e : Eff) (now g : Nat) (cb : Cb) : Eff :=
       if rem = 0 then resolveFut depthFuel e1 now comp (.list res) else e1
   else { e with ps := { e.ps with futs := futSet e.ps.futs g { gu with cbs := gu.cbs ++ [cb] } } }
 
+/-- `event.add_completion_hook(h)` for the event with creation index `id`: the list is shared with the
+    process the event started (`_start_process` passes `on_complete` on), so a hook added while that
+    process is in flight runs when it finishes; before the delivery it is picked up at the delivery;
+    after the finish (the list was cleared) or on a dropped event it never runs -/
+def addHookTo (e : Eff) (id hook : Nat) : Eff :=
+  match e.ps.procs.findIdx? (fun p => p.ev == id && !p.done) with
+  | some pid => { e with ps := { e.ps with late := e.ps.late ++ [(pid, hook)], lateAtt := hook :: e.ps.lateAtt } }
+  | none => { e with ps := { e.ps with hookOf := e.ps.hookOf ++ [(id, hook)] } }
+
+def levelOf (l : List (Nat × Int)) (x : Nat) : Option Int := (l.find? (fun p => p.1 == x)).map (·.2)
+
+def setLevel (l : List (Nat × Int)) (x : Nat) (abs : Bool) (v : Int) : List (Nat × Int) :=
+  (x, if abs then v else (levelOf l x).getD 0 + v) :: l.filter (fun p => p.1 != x)
+
+/-- hooks added to the originating event of `pid` while it was in flight, in order -/
+def lateOf (ps : PS) (pid : Nat) : List Nat := (ps.late.filter (fun q => q.1 == pid)).map (·.2)
+
 def enum {α} (l : List α) : List (Nat × α) := (List.range l.length).zip l
 
 def runAct (now : Nat) (e : Eff) : Act → Eff
@@ -194,7 +222,12 @@ def runAct (now : Nat) (e : Eff) : Act → Eff
     match e.ps.lastKind.find? (fun p => p.1 == kind) with
     | some (_, id) => { e with cancels := e.cancels ++ [id] }
     | none => e
-  | .resolve f v => resolveFut depthFuel e now f (.n v)
+  | .resolve f v => resolveFut depthFuel e now f v
+  | .addHook kind hook =>
+    match e.ps.lastKind.find? (fun p => p.1 == kind) with
+    | some (_, id) => addHookTo e id hook
+    | none => e
+  | .metric x abs v => { e with ps := { e.ps with level := setLevel e.ps.level x abs v } }
   | .fresh f => { e with ps := { e.ps with futs := futSet e.ps.futs f ({} : Fut) } }
   | .anyOf f gs =>
     let e0 := { e with ps := { e.ps with futs := futSet e.ps.futs f ({} : Fut) } }
@@ -233,9 +266,12 @@ def runSegment (now : Nat) (e : Eff) (pid : Nat) (tag : Nat := 0) : Eff :=
         let e3 := { e2 with ps := { e2.ps with futs := futSet e2.ps.futs f { fu with parked := some pid } } }
         if fu.resolved then resumeParked e3 now f else e3
       | .ret =>
+        -- `_run_completion_hooks`: the shared list as it is now (hooks the event had when the process
+        -- started, then those added since), cleared before the hooks run
         let e2 := setProc e1 { p with segs := [], done := true, hooks := [] }
+        let e2 := { e2 with ps := { e2.ps with late := e2.ps.late.filter (fun q => q.1 != pid) } }
         let e3 := addObs e2 (.finish now pid)
-        runHooks now e3 p.hooks
+        runHooks now e3 (p.hooks ++ lateOf e1.ps pid)
 
 /-- the `Machine` of a program -/
 def procHandle (ps : PS) (now : Nat) (ev : Ev) : Out PS :=
@@ -251,7 +287,8 @@ def procHandle (ps : PS) (now : Nat) (ev : Ev) : Out PS :=
     | some d =>
       let e1 := addObs e0 (.start now ev.target ev.kind ev.tag)
       let pid := e1.ps.procs.length
-      let p : Proc := { ent := ev.target, kind := ev.kind, daemon := ev.daemon, segs := d.segs, hooks := hooks }
+      let p : Proc :=
+        { ent := ev.target, kind := ev.kind, daemon := ev.daemon, segs := d.segs, hooks := hooks, ev := ev.id }
       -- (`_start_process` also creates a first continuation that is never pushed; it consumes a
       -- creation index in the code but has no effect on relative order, so the model skips it)
       let e2 := { e1 with ps := { e1.ps with procs := e1.ps.procs ++ [p] } }
